@@ -103,7 +103,7 @@ def classify(doc, prep, o):
 
 def run_shard(ctx):
     d = drive.Driver(ctx, feat, flags="random", styles=("runs", "runs", "mixed"), quirks=QUIRKS, extra=twin, classify=classify)
-    d.loop(2500, 60000)
+    d.loop(3000, 250000)
 
 
 def replay(ctx, case):
